@@ -56,6 +56,7 @@ def run(chk: Check) -> None:
     for s in tree_sites(repo):
         index_key_rule(chk, s, own, "R12.5")
     notify_protocol(chk, "R12.5")
+    no_lookup_during_edit(chk, "R12.6")
 
 
 # ---------------------------------------------------------------------------
@@ -450,7 +451,30 @@ def _get(chk: Check, lt: ClassInfo) -> None:
                    "ADDED -> add(interval), every other event -> discard(interval), skipping none "
                    "(in order: %s, applied: %s)" % (in_order, applied), 4,
                    undecided=aliased or (cond_kind is None and _table_dispatch(n, tv[0])))
-    wit = cfg.path_avoiding(cfg.entry, cfg.exit, rebuild | replay_heads)
+    # (branches on which the queue is known to be empty: nothing to apply, nothing to clear)
+    empty_q: Set[int] = set()
+    for n, i in cfg.info.items():
+        if i.kind != "test" or i.ast is None:
+            continue
+        t_, pol = i.ast, True
+        while isinstance(t_, ast.UnaryOp) and isinstance(t_.op, ast.Not):
+            t_, pol = t_.operand, not pol
+        is_q = lambda e: attr_path(e) == (me, "_interval_events") or (  # noqa: E731
+            isinstance(e, ast.Name) and e.id in al and attr_path(al[e.id]) == (me, "_interval_events"))
+        empty_when: Optional[bool] = None
+        if is_q(t_):
+            empty_when = not pol                      # ``if events:`` is False
+        elif isinstance(t_, ast.Compare) and len(t_.ops) == 1 and isinstance(t_.left, ast.Call) \
+                and attr_path(t_.left.func) == ("len",) and t_.left.args and is_q(t_.left.args[0]) \
+                and isinstance(t_.comparators[0], ast.Constant) and t_.comparators[0].value == 0 \
+                and isinstance(t_.ops[0], (ast.Eq, ast.NotEq)):
+            empty_when = isinstance(t_.ops[0], ast.Eq) == pol
+        if empty_when is None:
+            continue
+        for b in cfg.g.successors(n):
+            if cfg.info[b].kind == "branch" and cfg.info[b].value == empty_when:
+                empty_q.add(b)
+    wit = cfg.path_avoiding(cfg.entry, cfg.exit, rebuild | replay_heads | empty_q)
     chk.ob("R12.4", "LazyIntervalTree.get:every-path-rebuilds-or-replays", wit is None, f.loc(),
            "a path through get() returns the tree without rebuilding it or applying the queued "
            "events: %s" % (" -> ".join(cfg.describe_path(wit)) if wit else "-"), 3, undecided=aliased)
@@ -484,7 +508,7 @@ def _get(chk: Check, lt: ClassInfo) -> None:
                         and len(n.targets[0].elts) == len(n.value.elts) and any(
             attr_path(t) == (me, "_interval_events") and isinstance(v, ast.List) and not v.elts
             for t, v in zip(n.targets[0].elts, n.value.elts)))
-    wit = cfg.path_avoiding(cfg.entry, cfg.exit, clears)
+    wit = cfg.path_avoiding(cfg.entry, cfg.exit, clears | empty_q)
     chk.ob("R12.4", "LazyIntervalTree.get:clears-queue", wit is None, f.loc(),
            "a path through get() leaves events queued: they would be applied a second time by the "
            "next lookup: %s" % (" -> ".join(cfg.describe_path(wit)) if wit else "-"), 3, undecided=aliased)
@@ -630,3 +654,52 @@ def _get(chk: Check, lt: ClassInfo) -> None:
         chk.ob("R12.4", "LazyIntervalTree.__init__:starts-unbuilt", starts_empty, init.loc(),
                "a new lazy tree must start without a materialised tree (values added before "
                "construction completes are picked up by the first rebuild)", 1)
+
+
+def no_lookup_during_edit(chk: Check, rule: str) -> int:
+    """the owning collections tell the index about a change *while* they make it (the event is
+    queued before the store changes): inside their methods nothing may ask the owner for anything
+    that is answered from the index - a lookup there rebuilds or replays on a half-made edit and
+    empties the queue"""
+    repo = chk.repo
+    n = 0
+    for site in tree_sites(repo):
+        owner = site.owner
+        # members of the owner answered from the index (directly, or through another such member)
+        answered: Set[str] = set()
+        members: Dict[str, FuncInfo] = dict(owner.methods)
+        for nm, pr in owner.props.items():
+            if pr.getter is not None:
+                members[nm] = pr.getter
+        for _ in range(4):
+            for nm, fi in members.items():
+                if nm in answered or nm.startswith("_index_") or nm == "__init__":
+                    continue
+                me = fi.self_name or "self"
+                for x in ast.walk(fi.node):
+                    if isinstance(x, ast.Call) and isinstance(x.func, ast.Attribute) and x.func.attr == "get" \
+                            and attr_path(x.func.value) == (me, site.attr):
+                        answered.add(nm)
+                    elif isinstance(x, ast.Attribute) and attr_path(x.value) == (me,) and x.attr in answered:
+                        answered.add(nm)
+        # the wrapper class(es) of the owner's collection
+        for c in repo.classes.values():
+            if c.outer is not owner or not any(c.is_subclass_of(repo.cls(b)) for b in ("SetWrapper", "ListWrapper", "DictWrapper")):
+                continue
+            for mname, f in c.methods.items():
+                if mname == "__init__":
+                    continue
+                me = f.self_name or "self"
+                al = local_aliases(f.node)
+                for x in walk_no_nested(f.node):
+                    if not (isinstance(x, ast.Attribute) and x.attr in answered):
+                        continue
+                    recv = expand_path(x.value, al)
+                    if recv == (me, "_node"):
+                        n += 1
+                        chk.saw(f)
+                        chk.ob(rule, "%s:no-lookup-during-edit(%s)" % (f.qualname, x.attr), False, f.loc(x),
+                               "%s asks its owner for %s, which is answered from the interval index: in the middle of "
+                               "the edit the index would be rebuilt or replayed on a half-updated collection and its "
+                               "pending events dropped" % (f.qualname, x.attr), 2)
+    return n
